@@ -193,6 +193,21 @@ CHECKS = {
   note="Trusted: TLC, Python's sqlite3 as independent reader, the pty driver; HISTORY_DELETE_DUPS=0 (documented start-up "
        "de-duplication switched off); % and _ are wildcards in searches.",
   technique="TLA+ table model; recorded multi-process histories (row snapshots by an independent SQLite client) validated by TLC"),
+ "C19": dict(
+  category="model_checking",
+  text="spec/Calc.tla is a recursive-descent reference with the precedence of the property (^ right-associative and tightest, then "
+       "* /, then + -, parentheses) and integer evaluation with division truncating toward zero inside an exactness window of "
+       "+-2^30 (TLC's integers are 32-bit). TLC checks precedence / associativity / truncation theorems and enumerates every "
+       "expression of up to 2 (thorough 3) operators over {0,1,2,3,7} with an optional parenthesised sub-range; each is rendered "
+       "with random spacing and redundant parentheses (plus float-mode variants) and evaluated in-process by the real "
+       "run_calculator; a sample also through `cicada -c` and `$( )`. Every string up to length 4 (thorough 5) over the 14-symbol "
+       "arithmetic alphabet and 43 boundary expressions (2^31, 2^63-1, exponents to 70 and beyond, division by zero, huge "
+       "literals, malformed input) are run for classification facts and crash freedom: a value or a diagnostic, never a crash.",
+  design_ref="DESIGN.md 3.11, 6 (C19)",
+  note="Honest limit: outside the exactness window, for division by zero, negative exponents, huge literals and non-integral float "
+       "results only crash freedom is decided; IEEE accuracy and exact wrap-around values are outside TLC's arithmetic. Harness "
+       "and binary are built with overflow checks on.",
+  technique="TLA+ reference parser / evaluator; TLC-enumerated expressions and strings replayed in-process and through the binary"),
  "C06": dict(
   category="model_checking",
   text="TLC explores every interleaving of child status changes (with Linux's report coalescing), foreground-wait iterations, "
